@@ -169,4 +169,213 @@ theorem brierIntegral_eq_KK {xs : List Rat} (hx : xs ≠ []) (y : Rat) :
     exact stepIntegralLeft_ee hg (mem_grid.mpr (by simp [ha])) (mem_grid.mpr (by simp [hb])) hy
   rw [sum_map_congr inner]; unfold KK; ring
 
+theorem sum_map_swap (f : Rat → Rat → Rat) (ys : List Rat) : ∀ (xs : List Rat),
+    (xs.map fun a => (ys.map fun b => f a b).sum).sum = (ys.map fun b => (xs.map fun a => f a b).sum).sum
+  | [] => by simp
+  | a :: xs => by
+    simp only [List.map_cons, List.sum_cons]
+    rw [sum_map_swap f ys xs, ← sum_map_add']
+
+theorem stepIntegralLeft_indL_pos {g : List Rat} (hg : g.Pairwise (· < ·)) {a b : Rat} (ha : a ∈ g) (hb : b ∈ g) :
+    stepIntegralLeft (indL b a) g = max (a - b) 0 := by
+  rcases le_total b a with h | h
+  · rw [stepIntegralLeft_indL hg hb ha h, max_eq_left (by linarith)]
+  · have : stepIntegralLeft (indL b a) g = stepIntegralLeft (fun _ => 0) g :=
+      stepIntegralLeft_congr (fun t _ => indL_empty h t)
+    rw [this, stepIntegralLeft_zero, max_eq_right (by linarith)]
+
+theorem pos_parts_sum (xs : List Rat) :
+    (xs.map fun a => (xs.map fun b => max (a - b) 0).sum).sum = pairAbs xs / 2 := by
+  have h2 : pairAbs xs = (xs.map fun a => (xs.map fun b => max (a - b) 0).sum).sum
+      + (xs.map fun a => (xs.map fun b => max (b - a) 0).sum).sum := by
+    unfold pairAbs
+    rw [← sum_map_add']
+    apply sum_map_congr; intro a _
+    rw [← sum_map_add']
+    apply sum_map_congr; intro b _
+    rcases le_total a b with h | h
+    · rw [abs_of_nonpos (by linarith), max_eq_right (by linarith), max_eq_left (by linarith)]; ring
+    · rw [abs_of_nonneg (by linarith), max_eq_left (by linarith), max_eq_right (by linarith)]; ring
+  have hs := sum_map_swap (fun a b => max (b - a) 0) xs xs
+  rw [hs] at h2
+  linarith
+
+theorem count_mul_count (xs : List Rat) (t : Rat) :
+    ((xs.filter (fun x => decide (t ≤ x))).length : Rat) * ((xs.length : Rat) - (xs.filter (fun x => decide (t ≤ x))).length)
+      = (xs.map fun a => (xs.map fun b => indL b a t).sum).sum := by
+  have h1 := filter_length_eq_sum (fun x => decide (t ≤ x)) xs
+  simp only [decide_eq_true_eq] at h1
+  have h2 : (xs.length : Rat) - (xs.filter (fun x => decide (t ≤ x))).length
+      = (xs.map fun b => if b < t then (1 : Rat) else 0).sum := by
+    rw [h1]
+    have : (fun b : Rat => if b < t then (1 : Rat) else 0) = fun b => 1 - (if t ≤ b then (1 : Rat) else 0) := by
+      funext b; by_cases h : t ≤ b <;> simp [h, not_lt.mpr, not_le.mp]
+    rw [this, sum_map_sub', sum_map_const]; ring
+  rw [h2, h1, ← sum_map_mul_const]
+  apply sum_map_congr; intro a _
+  rw [← sum_map_const_mul]
+  apply sum_map_congr; intro b _
+  unfold indL
+  by_cases h3 : t ≤ a <;> by_cases h4 : b < t <;> simp [h3, h4]
+
+theorem fairCorr_integral {xs : List Rat} (hx : 2 ≤ xs.length) (y : Rat) :
+    stepIntegralLeft (brierFairCorr xs) (grid (y :: xs)) = fairOffset xs := by
+  have hlen : ¬ xs.length ≤ 1 := by omega
+  have e : brierFairCorr xs = fun t =>
+      (1 / ((xs.length : Rat) ^ 2 * ((xs.length : Rat) - 1))) * (xs.map fun a => (xs.map fun b => indL b a t).sum).sum := by
+    funext t
+    unfold brierFairCorr
+    simp only [hlen, if_false]
+    rw [← count_mul_count]; ring
+  rw [e, stepIntegralLeft_smul, stepIntegralLeft_listSum (fun a t => (xs.map fun b => indL b a t).sum)]
+  have hg := pairwise_grid (y :: xs)
+  have inner : ∀ a ∈ xs, stepIntegralLeft (fun t => (xs.map fun b => indL b a t).sum) (grid (y :: xs))
+      = (xs.map fun b => max (a - b) 0).sum := by
+    intro a ha
+    rw [stepIntegralLeft_listSum (fun b t => indL b a t)]
+    apply sum_map_congr
+    intro b hb
+    exact stepIntegralLeft_indL_pos hg (mem_grid.mpr (by simp [ha])) (mem_grid.mpr (by simp [hb]))
+  rw [sum_map_congr inner, pos_parts_sum]
+  unfold fairOffset; rw [pairSum_eq]
+  have h2 : (2 : Rat) ≤ xs.length := by exact_mod_cast hx
+  have h1 : (xs.length : Rat) - 1 ≠ 0 := by linarith
+  have h0 : (xs.length : Rat) ≠ 0 := by linarith
+  field_simp
+
+theorem brierIntegral_false_eq {xs : List Rat} (hx : xs ≠ []) (y : Rat) :
+    brierIntegral false xs y = crpsIntegral xs y := by
+  unfold brierIntegral
+  simp only [Bool.false_eq_true, if_false, sub_zero]
+  rw [crpsIntegral_eq_KK hx]
+  exact brierIntegral_eq_KK hx y
+
+theorem brierIntegral_true_eq {xs : List Rat} (hx : 2 ≤ xs.length) (y : Rat) :
+    brierIntegral true xs y = crpsIntegral xs y - fairOffset xs := by
+  have hne : xs ≠ [] := by intro h; simp [h] at hx
+  unfold brierIntegral
+  simp only [if_true]
+  rw [stepIntegralLeft_sub, fairCorr_integral hx, crpsIntegral_eq_KK hne]
+  congr 1
+  exact brierIntegral_eq_KK hne y
+
+open SV.Model.CrpsEns
+
+theorem eventCount_fin (xs : List Rat) (θ : Rat) :
+    eventCount (xs.map Fl.fin) (Fl.fin θ) = ((xs.filter (fun x => decide (θ ≤ x))).length : Int) := by
+  unfold eventCount
+  congr 1
+  induction xs with
+  | nil => rfl
+  | cons a l ih =>
+    by_cases h : θ ≤ a <;> simp [List.filter_cons, h, ih]
+
+theorem binaryObs_fin (y θ : Rat) : binaryObs (Fl.fin y) (Fl.fin θ) = Fl.fin (if θ ≤ y then 1 else 0) := by
+  unfold binaryObs; by_cases h : θ ≤ y <;> simp [Fl.whereB, Fl.ofBool, h]
+
+theorem brierEns_fin (fair : Bool) {xs : List Rat} (hx : xs ≠ []) (y θ : Rat) :
+    brierEns fair (xs.map Fl.fin) (Fl.fin y) (Fl.fin θ)
+      = Fl.fin (brier xs y θ - (if fair then brierFairCorr xs θ else 0)) := by
+  have hM := length_ne_zero hx
+  unfold brierEns
+  simp only [eventCount_fin, ensCount_fin, binaryObs_fin]
+  set i : Nat := (xs.filter (fun x => decide (θ ≤ x))).length with hi
+  have hr : Fl.sq (Fl.sub (Fl.div (Fl.ofInt (i : Int)) (Fl.ofInt (xs.length : Int))) (Fl.fin (if θ ≤ y then 1 else 0)))
+      = Fl.fin (brier xs y θ) := by
+    have e1 : Fl.ofInt (i : Int) = Fl.fin (i : Rat) := by simp [Fl.ofInt]
+    have e2 : Fl.ofInt (xs.length : Int) = Fl.fin (xs.length : Rat) := by simp [Fl.ofInt]
+    rw [e1, e2, Fl.div_fin _ _ hM, Fl.sub_fin]
+    unfold Fl.sq brier eventFrac
+    rw [Fl.mul_fin, ← hi]; congr 1; ring
+  rw [hr]
+  cases fair
+  · simp
+  · simp only [if_true]
+    by_cases h1 : xs.length ≤ 1
+    · have hlen : xs.length = 1 := by
+        have : xs.length ≠ 0 := by simpa using hx
+        omega
+      have hc : brierFairCorr xs θ = 0 := by unfold brierFairCorr; simp [h1]
+      have hden : Fl.ofInt ((xs.length : Int) ^ 2 * ((xs.length : Int) - 1)) = Fl.fin 0 := by
+        rw [hlen]; simp [Fl.ofInt]
+      have hi1 : i ≤ 1 := by rw [hi, ← hlen]; exact List.length_filter_le _ _
+      have hnum : Fl.ofInt ((i : Int) * ((xs.length : Int) - i)) = Fl.fin 0 := by
+        rw [hlen]
+        have hcase : i = 0 ∨ i = 1 := by omega
+        rcases hcase with h | h <;> simp [h, Fl.ofInt]
+      rw [hden, hnum, hc]; simp [Fl.fillna]
+    · have h2 : (2 : Rat) ≤ xs.length := by
+        have : 2 ≤ xs.length := by omega
+        exact_mod_cast this
+      have hne : (xs.length : Rat) ^ 2 * ((xs.length : Rat) - 1) ≠ 0 := by
+        apply mul_ne_zero
+        · exact pow_ne_zero _ hM
+        · linarith
+      have e1 : Fl.ofInt ((i : Int) * ((xs.length : Int) - i)) = Fl.fin ((i : Rat) * ((xs.length : Rat) - i)) := by
+        simp [Fl.ofInt]
+      have e2 : Fl.ofInt ((xs.length : Int) ^ 2 * ((xs.length : Int) - 1)) = Fl.fin ((xs.length : Rat) ^ 2 * ((xs.length : Rat) - 1)) := by
+        simp [Fl.ofInt]
+      rw [e1, e2, Fl.div_fin _ _ hne]
+      simp only [Fl.fillna, Fl.isNan_fin, Bool.false_eq_true, if_false, Fl.sub_fin]
+      congr 1
+      unfold brierFairCorr
+      simp only [h1, if_false, ← hi]
+
+
+/-! ## components of the partition -/
+
+theorem partition_under {a b : Rat} (hab : a ≤ b) (x y : Rat) :
+    (if vLo a x < vLo a y then vLo a y - vLo a x else 0) + (if vMid a b x < vMid a b y then vMid a b y - vMid a b x else 0)
+      + (if vHi b x < vHi b y then vHi b y - vHi b x else 0) = if x < y then y - x else 0 := by
+  unfold vLo vMid vHi
+  simp only [max_def, min_def]
+  split_ifs <;> first | linarith | (exfalso; linarith)
+
+theorem partition_over {a b : Rat} (hab : a ≤ b) (x y : Rat) :
+    (if vLo a y < vLo a x then vLo a x - vLo a y else 0) + (if vMid a b y < vMid a b x then vMid a b x - vMid a b y else 0)
+      + (if vHi b y < vHi b x then vHi b x - vHi b y else 0) = if y < x then x - y else 0 := by
+  unfold vLo vMid vHi
+  simp only [max_def, min_def]
+  split_ifs <;> first | linarith | (exfalso; linarith)
+
+theorem underSum_map (v : Rat → Rat) (xs : List Rat) (y : Rat) :
+    underSum (xs.map v) (v y) = (xs.map fun x => if v x < v y then v y - v x else 0).sum := by
+  unfold underSum; rw [List.map_map]; rfl
+theorem overSum_map (v : Rat → Rat) (xs : List Rat) (y : Rat) :
+    overSum (xs.map v) (v y) = (xs.map fun x => if v y < v x then v x - v y else 0).sum := by
+  unfold overSum; rw [List.map_map]; rfl
+
+theorem underSum_partition {a b : Rat} (hab : a ≤ b) (xs : List Rat) (y : Rat) :
+    underSum (xs.map (vLo a)) (vLo a y) + underSum (xs.map (vMid a b)) (vMid a b y) + underSum (xs.map (vHi b)) (vHi b y)
+      = underSum xs y := by
+  rw [underSum_map, underSum_map, underSum_map, ← sum_map_add', ← sum_map_add']
+  unfold underSum
+  apply sum_map_congr; intro x _
+  exact partition_under hab x y
+
+theorem overSum_partition {a b : Rat} (hab : a ≤ b) (xs : List Rat) (y : Rat) :
+    overSum (xs.map (vLo a)) (vLo a y) + overSum (xs.map (vMid a b)) (vMid a b y) + overSum (xs.map (vHi b)) (vHi b y)
+      = overSum xs y := by
+  rw [overSum_map, overSum_map, overSum_map, ← sum_map_add', ← sum_map_add']
+  unfold overSum
+  apply sum_map_congr; intro x _
+  exact partition_over hab x y
+
+/-- the spread component on finite inputs, for either method -/
+def spreadQ (m : Method) (xs : List Rat) : Rat :=
+  pairAbs xs * (match m with | .ecdf => 1 / (2 * (xs.length : Rat) ^ 2) | .fair => 1 / (2 * (xs.length : Rat) * ((xs.length : Rat) - 1)))
+
+theorem spreadTerm_fin {m : Method} {xs : List Rat} (h : enough m xs.length) :
+    spreadTerm m (xs.map Fl.fin) = Fl.fin (spreadQ m xs) := by
+  cases m
+  · have : xs ≠ [] := by intro e; simp [enough, e] at h
+    rw [spreadTerm_ecdf_fin this]; unfold spreadQ; congr 1; ring
+  · rw [spreadTerm_fair_fin h]; unfold spreadQ; congr 1; ring
+
+theorem spreadQ_partition (m : Method) {a b : Rat} (hab : a ≤ b) (xs : List Rat) :
+    spreadQ m (xs.map (vLo a)) + spreadQ m (xs.map (vMid a b)) + spreadQ m (xs.map (vHi b)) = spreadQ m xs := by
+  unfold spreadQ
+  simp only [List.length_map]
+  rw [← pairAbs_partition hab xs]; ring
+
 end SV.Lemmas.CrpsEns
